@@ -21,9 +21,15 @@ CFGS = {
     # fast build used by the functional correspondence checks (same flavour as the suite: NDEBUG)
     "rel": ["-O2", "-DNDEBUG"],
     # assertion-enabled, sanitized build (C11 and replay confirmation)
-    "dbg": ["-O1", "-g", "-fsanitize=address,undefined", "-fno-sanitize=alignment", "-fno-sanitize-recover=all",
+    "dbg": ["-O1", "-g", "-fsanitize=address,undefined", "-fno-sanitize-recover=all",
             "-fno-omit-frame-pointer"],
+    # uninitialised reads (clang MemorySanitizer; scratch chunks are re-poisoned by the harness on every allocation)
+    "msan": ["-O1", "-g", "-fsanitize=memory", "-fno-omit-frame-pointer", "-fsanitize-memory-track-origins"],
+    # data races between environments used on different threads
+    "tsan": ["-O1", "-g", "-fsanitize=thread"],
 }
+COMPILER = {"msan": "clang"}
+WRAPS = ["-Wl,--wrap=clock", "-Wl,--wrap=_CMRallocStack", "-Wl,--wrap=_CMRfreeStack"]
 GUARD = "-DDISCOPT_CMR_VERIF"
 
 
@@ -71,7 +77,7 @@ def build_lib(cfg="rel", extra_defs=(), tag=None):
     name = "lib-" + cfg + ("-" + tag if tag else "")
     out = os.path.join(WORK, name)
     flags = CFGS[cfg] + [GUARD] + list(extra_defs)
-    fp = tree_fingerprint(" ".join(flags))
+    fp = tree_fingerprint(" ".join(flags) + " buildrules-v2")
     stamp = os.path.join(out, "stamp")
     if os.path.exists(stamp) and open(stamp).read() == fp and os.path.exists(os.path.join(out, "libcmr.a")):
         return out
@@ -84,7 +90,12 @@ def build_lib(cfg="rel", extra_defs=(), tag=None):
 
     def cc(src):
         obj = os.path.join(out, os.path.basename(src)[:-2] + ".o")
-        r = sh(["gcc", "-std=gnu99", "-w", "-c", src, "-o", obj] + flags + inc,
+        fl = flags
+        if cfg == "dbg" and os.path.basename(src) == "env.c":
+            # the stack allocator's own bookkeeping bytes are poisoned by the harness (exact bounds for scratch
+            # arrays); env.c is therefore the one file compiled without ASan instrumentation
+            fl = [f.replace("address,undefined", "undefined") for f in flags]
+        r = sh([COMPILER.get(cfg, "gcc"), "-std=gnu99", "-w", "-c", src, "-o", obj] + fl + inc,
                capture_output=True, text=True)
         return (src, r.returncode, r.stderr)
 
@@ -111,11 +122,9 @@ def build_drive(cfg="rel", extra_defs=(), tag=None, wrap_clock=False):
     if os.path.exists(exe) and all(os.path.getmtime(exe) >= os.path.getmtime(d) for d in deps):
         return exe
     flags = CFGS[cfg] + [GUARD] + list(extra_defs)
-    cmd = ["gcc", "-std=gnu99", "-w", src, "-o", exe] + flags + [
+    cmd = [COMPILER.get(cfg, "gcc"), "-std=gnu99", "-w", src, "-o", exe] + flags + [
         "-I" + os.path.join(REPO, "include"), "-I" + os.path.join(lib, "inc"),
-        "-I" + os.path.join(REPO, "src/cmr"), os.path.join(lib, "libcmr.a"), "-lm", "-lgmp", "-lpthread"]
-    if wrap_clock:
-        cmd += ["-DDRIVE_WRAP_CLOCK", "-Wl,--wrap=clock"]
+        "-I" + os.path.join(REPO, "src/cmr"), os.path.join(lib, "libcmr.a"), "-lm", "-lgmp", "-lpthread"] + WRAPS
     r = sh(cmd, capture_output=True, text=True)
     if r.returncode != 0:
         raise BuildError("drive does not compile:\n" + r.stderr[:3000])
@@ -268,16 +277,19 @@ def chunks(lst, n):
     return [lst[i:i + k] for i in range(0, len(lst), k)]
 
 
-def run_drive(exe, api, lines, shards=NCPU, env=None, timeout=3600):
+def run_drive(exe, api, lines, shards=NCPU, env=None, timeout=3600, flags=None):
     """Feed case lines to `drive <api>`; returns (records, crashes).
     records[i] is the output line for case i or None if the process died on it.
-    A crash on case i is recorded as (i, returncode, stderr tail) and the stream resumes after it."""
+    A crash on case i is recorded as (i, returncode, stderr tail) and the stream resumes after it.
+    If `flags` is a dict it receives, per case index, the flag lines the harness printed after the record:
+    {"S": usage, "M": bits, "L": bytes (+ "Lreport": LeakSanitizer text), "T": trace record}."""
     if not lines:
         return [], []
     parts = chunks(list(enumerate(lines)), shards)
 
     def work(part):
         out = {}
+        fl = {}
         crashes = []
         pos = 0
         while pos < len(part):
@@ -286,27 +298,42 @@ def run_drive(exe, api, lines, shards=NCPU, env=None, timeout=3600):
             outl = r.stdout.split("\n")
             if outl and not r.stdout.endswith("\n"):
                 outl = outl[:-1]          # a partial last line means the process died while printing it
-            got = [l for l in outl if l.startswith("R ")]
-            for k, l in enumerate(got):
-                if pos + k < len(part):
-                    out[part[pos + k][0]] = l[2:]
-            if r.returncode == 0 and len(got) >= len(part) - pos:
+            got = 0
+            leaked_exit = False
+            for l in outl:
+                if l.startswith("R "):
+                    if pos + got < len(part):
+                        out[part[pos + got][0]] = l[2:]
+                    got += 1
+                elif l[:2] in ("S ", "M ", "L ", "T ") and got > 0 and pos + got - 1 < len(part):
+                    d = fl.setdefault(part[pos + got - 1][0], {})
+                    d[l[0]] = l[2:]
+                    if l[0] == "L":
+                        d["Lreport"] = r.stderr[-3000:]
+                        leaked_exit = True
+            if r.returncode == 0 and got >= len(part) - pos:
                 break
-            # died on case pos+len(got)
-            bad = pos + len(got)
+            if r.returncode == 7 and leaked_exit:
+                # the harness stopped after reporting lost heap memory on its last case: resume behind it
+                pos += got
+                continue
+            # died on case pos+got
+            bad = pos + got
             if bad >= len(part):
                 break
             crashes.append((part[bad][0], r.returncode, r.stderr[-1500:]))
             pos = bad + 1
-        return out, crashes
+        return out, crashes, fl
 
     records = [None] * len(lines)
     crashes = []
     with ThreadPoolExecutor(shards) as ex:
-        for out, cr in ex.map(work, parts):
+        for out, cr, fl in ex.map(work, parts):
             for i, l in out.items():
                 records[i] = l
             crashes += cr
+            if flags is not None:
+                flags.update(fl)
     return records, crashes
 
 
